@@ -91,6 +91,7 @@ def plan(tier):
         for b in range(len(XCFGS)):
             if a != b:
                 shards.append(("xcfg", a, b, None))
+    shards.append(("reset", None, None, None))
     if tier == "thorough":
         for a, b, c in itertools.product(range(len(CONFIGS)), repeat=3):
             if len({a, b, c}) >= 2:
@@ -184,6 +185,8 @@ def run_shard(arg):
         order_shard(res, arg[1])
     elif kind == "xcfg":
         xcfg_shard(res, arg[1], arg[2])
+    elif kind == "reset":
+        reset_shard(res)
     else:
         iso_shard(res, arg[1], arg[2])
     return res.as_dict()
@@ -382,6 +385,45 @@ def xcfg_shard(res, a, b):
                      {"first_config": a, "second_config": b, "thumb": bool(t), "olen": ol, "word": w, "nzcv": bg[0],
                       "sctlr_or": bg[1]})
     res.sample({"xcfg": [XCFGS[a], XCFGS[b]], "cases": len(cases)})
+
+
+def reset_shard(res):
+    """take_reset() of one instance while an instance with another configuration is the one that was constructed /
+    stepped last: the reset state must be that of the instance's own configuration (extensions, reset values)."""
+    cfgs = CONFIGS + [{"arch_version": 7, "have_security_ext": False, "memory_system_architecture": "VMSA"}]
+
+    def prepared(ci):
+        cpu, plan = setup_instance(cfgs[ci], False, [(32, 0xE1A00000)])
+        regs = cpu.registers
+        regs.scr.value = 0x31 | 1            # Non-secure, AW / FW set
+        regs.sctlr.value ^= 0x40002000       # TE, V flipped
+        regs.cpsr.value = 0x600001F6 if not regs.bad_mode(0b10110) else 0x600001F3      # Monitor mode where it exists
+        for n in range(13):
+            regs.set(n, 0xABCD0000 + n)
+        return cpu, plan
+
+    for a in range(len(cfgs)):
+        cpu0, plan0 = prepared(a)
+        cpu0.take_reset()
+        want = plan0.snapshot()
+        for b in range(len(cfgs)):
+            for other_steps in (0, 1):
+                cpu, plan = prepared(a)
+                ocpu, oplan = setup_instance(cfgs[b], False, [(32, 0xE1A00000)])     # constructed after `cpu`
+                for _ in range(other_steps):
+                    machine.step(ocpu)
+                res.cases += 1
+                res.transitions += 1
+                res.add_state(hash((a, b, other_steps)))
+                res.outcome("reset-next-to-other-instance")
+                cpu.take_reset()
+                got = plan.snapshot()
+                if got != want:
+                    res.fail("take_reset-depends-on-another-instance",
+                             "configuration %r reset after an instance of configuration %r was %s: %s" % (
+                                 cfgs[a], cfgs[b], "stepped" if other_steps else "constructed",
+                                 machine.fmt_diff(plan.diff(want, got))), {"config": a, "other": b, "other_steps": other_steps})
+    res.sample({"reset_isolation": "%d x %d configuration pairs" % (len(cfgs), len(cfgs))})
 
 
 # ------------------------------------------------------------------------------------------------ (b)
